@@ -163,6 +163,59 @@ def model_check(ctx, module, cfg, workers=8, timeout=900, goals=(), coverage=Fal
     return r
 
 
+def apalache_inductive(ctx, module, indinv="IndInv", implied="Implied", cinit="ConstInit", init="Init",
+                       indinit="IndInit", timeout=600, mutants=()):
+    """Unbounded safety of a small integer specification with Apalache: Init => IndInv (length 0),
+    IndInv /\\ Next => IndInv' (length 1 from IndInit) and IndInv => the stated bound (`implied`).
+    `mutants` = (description, old text, new text, file) edits of a copy of the specification that must make
+    the inductive step fail (the proof is sensitive to the arithmetic it is about).
+    A failure is a finding about the specification, i.e. a tool error, never a violation of the code."""
+    t0 = time.time()
+
+    def run(tag, args, specdir):
+        out = ctx.path("apa-" + tag)
+        cmd = ["timeout", str(timeout), "apalache-mc", "check", "--out-dir=" + out, "--cinit=" + cinit] + args + \
+              [os.path.join(specdir, module + ".tla")]
+        p = subprocess.run(cmd, cwd=ctx.work, stdout=subprocess.PIPE, stderr=subprocess.STDOUT, text=True)
+        shutil.rmtree(out, ignore_errors=True)
+        if p.returncode == 124:
+            raise ToolError("apalache timed out on %s (%s)" % (module, tag))
+        ok = "The outcome is: NoError" in p.stdout
+        err = "The outcome is: Error" in p.stdout
+        if not ok and not err:
+            sys.stdout.write(p.stdout[-3000:])
+            raise ToolError("apalache failed on %s (%s)" % (module, tag))
+        return ok
+
+    steps = [("base", ["--init=" + init, "--inv=" + indinv, "--length=0"]),
+             ("step", ["--init=" + indinit, "--inv=" + indinv, "--length=1"]),
+             ("implied", ["--init=" + indinit, "--inv=" + implied, "--length=0"])]
+    for tag, args in steps:
+        if not run(tag, args, SPECS):
+            raise ToolError("apalache: %s of the inductive argument of %s does not hold" % (tag, module))
+    killed = []
+    for i, (what, old, new, fname) in enumerate(mutants):
+        d = ctx.path("apa-mut-%d" % i)
+        os.makedirs(d, exist_ok=True)
+        for f in os.listdir(SPECS):
+            if f.endswith(".tla"):
+                shutil.copy(os.path.join(SPECS, f), d)
+        text = open(os.path.join(d, fname)).read()
+        if old not in text:
+            raise ToolError("apalache mutant %r: text to replace not found in %s" % (what, fname))
+        open(os.path.join(d, fname), "w").write(text.replace(old, new, 1))
+        if run("mut%d" % i, steps[1][1], d):
+            raise ToolError("apalache: the inductive step of %s still holds for the mutant %r (vacuous proof)" %
+                            (module, what))
+        killed.append(what)
+        shutil.rmtree(d, ignore_errors=True)
+    rec = {"module": module, "tool": "apalache-mc 0.58.0", "method": "inductive invariant, unbounded parameters",
+           "obligations": [s[0] for s in steps], "mutants_refuted": killed, "wall_s": round(time.time() - t0, 1)}
+    ctx.notes.setdefault("inductive_proofs", []).append(rec)
+    ctx.log("apalache %s: base, step, implied hold; %d mutant(s) refuted, %.1fs" % (module, len(killed), rec["wall_s"]))
+    return rec
+
+
 def check_goals(ctx, module, cfg, goals, workers=4, timeout=300):
     """Vacuity self-test: each goal is the NEGATION of a reachable situation stated as an invariant;
     TLC must find a counter-example for each."""
